@@ -3,8 +3,6 @@
 package cl
 
 import (
-	"math/big"
-
 	"github.com/ohler55/slip"
 )
 
@@ -48,30 +46,13 @@ type Decf struct {
 // Call the function with the arguments provided.
 func (f *Decf) Call(s *slip.Scope, args slip.List, depth int) (result slip.Object) {
 	slip.CheckArgCount(s, depth, f, args, 1, 2)
-	var delta slip.Object = slip.Fixnum(-1)
+	// The delta is subtracted, not negated and added, as the negative of
+	// the most negative fixnum is not a fixnum.
+	var delta slip.Object = slip.Fixnum(1)
 	if 1 < len(args) {
 		delta = args[1]
-		switch td := delta.(type) {
-		case slip.Fixnum:
-			delta = -td
-		case slip.SingleFloat:
-			delta = -td
-		case slip.DoubleFloat:
-			delta = -td
-		case *slip.LongFloat:
-			// Negate into a new value, the argument must not change.
-			var z big.Float
-			delta = (*slip.LongFloat)(z.Neg((*big.Float)(td)))
-		case *slip.Bignum:
-			var z big.Int
-			delta = (*slip.Bignum)(z.Neg((*big.Int)(td)))
-		case *slip.Ratio:
-			var z big.Rat
-			delta = (*slip.Ratio)(z.Neg((*big.Rat)(td)))
-		case slip.Complex:
-			delta = slip.Complex(complex(-real(td), -imag(td)))
-		default:
-			slip.TypePanic(s, depth, "decf value", td, "number")
+		if _, ok := delta.(slip.Number); !ok {
+			slip.TypePanic(s, depth, "decf value", delta, "number")
 		}
 	}
 	d2 := depth + 1
@@ -79,7 +60,7 @@ func (f *Decf) Call(s *slip.Scope, args slip.List, depth int) (result slip.Objec
 Retry:
 	switch tp := p.(type) {
 	case slip.Symbol:
-		result = addNumbers(s.Get(tp), delta)
+		result = reduceNumber(subNumbers(s.Get(tp), delta))
 		s.Set(tp, result)
 	case slip.List:
 		p = slip.ListToFunc(s, tp, d2)
@@ -93,7 +74,7 @@ Retry:
 			}
 			pargs[j] = s.Eval(v, d2)
 		}
-		result = addNumbers(tp.Apply(s, pargs, d2), delta)
+		result = reduceNumber(subNumbers(tp.Apply(s, pargs, d2), delta))
 		tp.Place(s, pargs, result)
 	default:
 		slip.TypePanic(s, depth, "decf placer", tp, "placer", "symbol")
